@@ -142,7 +142,7 @@ Record conformant (sp : sparams) : Prop := mkconf {
   c_q_prime : prime (Z.of_N (s_q sp));
   c_pq_order : s_p sp < s_q sp;
   c_q_range : s_q sp < 2 ^ 32;
-  c_pq_width : (s_pq_width sp < 1000)%nat;
+  c_pq_width : (s_pq_width sp <= 8)%nat;               (* pq < 2^64 is sent in at most 8 bytes *)
   c_rsa : rsa_pair (s_n sp) (s_e sp) (s_d sp);
   c_n_range : 256 ^ 255 <= s_n sp < 256 ^ 256;          (* RSA-2048 *)
   c_fps : Forall (fun x => x < 2 ^ 64) (s_fps_before sp ++ s_fps_after sp);
@@ -151,6 +151,7 @@ Record conformant (sp : sparams) : Prop := mkconf {
   c_dh_range : 2 ^ 2047 < s_dh_prime sp < 2 ^ 2048;
   c_ga_range : 1 < g_a sp /\ g_a sp + 1 < s_dh_prime sp;
   c_widths : (s_dp_width sp < 1000)%nat /\ (s_ga_width sp < 1000)%nat;
+  c_time : s_time sp < 2 ^ 32;
   c_pad_len : forall k, length (s_pad sp k) = k;
   c_pad_ok : forall k, okb (s_pad sp k)
 }.
